@@ -371,3 +371,26 @@ package wire
 //@ func Load
 //@   ensures result.0 != nil ==> result.0.Fset != nil || len(result.0.Sets) == 0
 
+
+// ---------------------------------------------------------------------------
+// C18: what wire itself contributes to "regeneration depends only on current sources"
+// ---------------------------------------------------------------------------
+
+// H1: the loader is always asked for the wireinject build (plus the user's tags), whole-program syntax,
+// in the caller's directory and environment.
+//@ func load
+//@   lensures [C18] len(cfg.BuildFlags) == 1 && (len(tags) == 0 ==> cfg.BuildFlags[0] == "-tags=wireinject") && (len(tags) > 0 ==> cfg.BuildFlags[0] == "-tags=wireinject" + (" " + tags))
+//@   lensures [C18] cfg.Mode == packages.LoadAllSyntax && cfg.Dir == wd && cfg.Env == env
+//@   loop 1 invariant len(escaped) == len(patterns)
+//@   loop 1 invariant [C18] len(cfg.BuildFlags) == 1 && (len(tags) == 0 ==> cfg.BuildFlags[0] == "-tags=wireinject") && (len(tags) > 0 ==> cfg.BuildFlags[0] == "-tags=wireinject" + (" " + tags))
+//@   loop 2 invariant true
+
+// H2: every non-empty output starts with the generated-code marker, the go:generate line and the
+// "!wireinject" constraint, and only then the package clause.
+//@ define frameHead(b *bytes.Buffer, name string) = OUTLEN[b] >= 5 && OUTEV[b][0] == ev("\x00WriteString", "// Code generated by Wire. DO NOT EDIT.\n\n") && evfmt(OUTEV[b][1]) == "\x00WriteString" && OUTEV[b][2] == ev("\x00WriteString", "//+build !wireinject\n\n") && OUTEV[b][3] == ev("\x00WriteString", "package ") && OUTEV[b][4] == ev("\x00WriteString", name)
+//@ func (*gen).frame
+//@   lensures [C18] OUTLEN[addr(buf)] > 0 ==> frameHead(addr(buf), g.pkg.Name)
+//@   loop 1 invariant [C18] frameHead(addr(buf), g.pkg.Name)
+//@   loop 2 invariant [C18] frameHead(addr(buf), g.pkg.Name)
+//@   loop 3 invariant [C18] frameHead(addr(buf), g.pkg.Name)
+//@   loop 4 invariant [C18] frameHead(addr(buf), g.pkg.Name)
